@@ -221,7 +221,13 @@ def main():
     widen = 1
     if ctx.broken_items:
         widen = 4      # a proof/tie broke: widen the search for a concrete failing input
-    mod.explore(ctx, widen)
+    try:
+        mod.explore(ctx, widen)
+    except Exception:   # noqa
+        # the judging code itself fell over - on the unchanged tree this never happens, so the implementation handed back something
+        # none of the oracles expects: the property is no longer shown to hold
+        import traceback
+        ctx.broken('exploration aborted (harness exception while judging the implementation)', traceback.format_exc()[-3000:])
 
     # 3b. extraction cross-check inside the kernel
     try:
@@ -290,7 +296,18 @@ class Ctx:
         """cases: list of JSON-able dicts.  model_line(case)->str ; impl(case)->wire string.
         canon(case, wire)->comparable ; spec(case, impl_wire, model_wire)->None or reason."""
         cases = list(cases)
-        lines = [model_line(c) for c in cases]
+        lines, kept = [], []
+        for c in cases:
+            try:
+                lines.append(model_line(c))
+                kept.append(c)
+            except common.FloatLeak as e:
+                # the case itself carries a float: it was derived from library output at generation time (a converter, a quota)
+                self.evaluations += 1
+                self.checker_false += 1
+                self.violations.append(dict(stream=stream, case=json.loads(json.dumps(c, default=str)), impl=str(e), model='n/a',
+                                            why='a float reached the harness through library output (%s): exact arithmetic is lost' % e))
+        cases = kept
         mouts = common.run_model(lines)
         self._nd = 0
         for c, mo in zip(cases, mouts):
